@@ -33,7 +33,7 @@ def run(ctx):
     ctx.log("read-order monitor over the vector sweeps: %d calls" % (sw["evaluations"] + sw2["evaluations"]))
     # The real poller over a real socket: every report must stem from a request issued in its own poll.
     from . import c13real
-    real = c13real.run_real(ctx)
+    real = c13real.run_real(ctx, slow=True)
     viol += [v for v in real["violations"] if v["sig"] in ("report-not-from-this-poll", "real-poller-measurement")]
     inconclusive = incon
     if agg["shards_lost"]:
